@@ -5,6 +5,8 @@ import LyModel.Valid.LemmasNew
 import LyModel.Valid.LemmasFamily
 import LyModel.Valid.LemmasIff2
 import LyModel.Valid.LemmasTag
+import LyModel.Valid.LemmasOpsSpec
+import LyModel.Valid.LemmasOpsNoState
 /-!
 # C02 — validation accepts exactly the instances that satisfy the schema
 
@@ -509,5 +511,273 @@ example : (validate auXn {} auT2).errs ≠ [] ∧ ∀ e ∈ (validate auXn {} au
   ⟨by decide,
    validate_error_tag auXn {} rfl rfl (lookupOk_of_B _ (by decide)) (plainSane_of_B _ (by decide)) (infoOk_of_B _ (by decide)) auT2
      (by decide) (by decide) (by decide) (by decide) (by decide) (by decide)⟩
+
+
+/-! ## content of operations and notifications: the all-state variant of the schema
+
+Inside an rpc / action `input` / `output` and inside a `notification` the `config` statement is ignored (RFC 7950 §7.21.1); the
+check `tools/checks/c02.py: operations` therefore expects libyang's verdict on operation content to be the specification evaluated
+on `Valid.stateVariant X` (every node `config false`, nothing else changed), with no option.  The theorems of this section say what
+that step does to the constraints, for every schema (any depth, choices, `unique`, defaults), every instance and every option set
+without `LYD_VALIDATE_NO_STATE`.  **Excluded option**: `LYD_VALIDATE_NO_STATE` is about datastore content and is never applied to
+operation data (`lyd_validate_op` passes `val_opts = 0`); `ops_noState` records what the specification would say. -/
+
+instance : LawfulBEq EKind where
+  eq_of_beq := by intro a b h; cases a <;> cases b <;> first | rfl | cases h
+  rfl := by intro a; cases a <;> rfl
+
+/-- the constraint violations that exist only because a leaf-list is configuration: one `.dup` for every (configuration leaf-list,
+sibling list the specification visits — below existing list entries and containers, through non-presence containers, in the cases
+that have data) that holds some value twice (RFC 7950 §7.7: "in configuration data, the values in a leaf-list MUST be unique") -/
+def cfgLeafListDups (X : SchemaX) (o : VOpts) (t : List DNode) : List EKind :=
+  if o.present && t.isEmpty then [] else llDupL (fun _ => false) X.top (explicitPart t)
+
+/-- **`ops_relaxes`**: without `LYD_VALIDATE_NO_STATE`, the violations of the all-state variant are a sublist (same order) of the
+violations of the schema itself — an instance that is valid datastore content is valid content of an operation with the same data
+definitions, and every constraint family violated as operation content is violated as datastore content. -/
+theorem ops_relaxes (X : SchemaX) (o : VOpts) (hns : o.noState = false) (t : List DNode) :
+    (violations (stateVariant X) o t).Sublist (violations X o t) := by
+  unfold violations
+  split
+  · exact List.Sublist.refl _
+  · simp only [hns, Bool.false_and, Bool.false_eq_true, if_false, List.append_nil]
+    exact specL_sublist X o hns (fun _ => false) (fun _ h => by cases h) X.top _
+
+/-- the same for ANY set of nodes whose `config` is turned off (`c i = true → i.config = true`: `c` never turns it on) -/
+theorem config_off_relaxes (X : SchemaX) (o : VOpts) (hns : o.noState = false) (c : SNode → Bool)
+    (hc : ∀ i, c i = true → i.config = true) (t : List DNode) :
+    (violations (X.mapConfig c) o t).Sublist (violations X o t) := by
+  unfold violations
+  split
+  · exact List.Sublist.refl _
+  · simp only [hns, Bool.false_and, Bool.false_eq_true, if_false, List.append_nil]
+    exact specL_sublist X o hns c hc X.top _
+
+theorem ops_valid_of_valid (X : SchemaX) (o : VOpts) (hns : o.noState = false) (t : List DNode) (h : Valid X o t) :
+    Valid (stateVariant X) o t := by
+  unfold Valid at *
+  have := ops_relaxes X o hns t
+  rw [h] at this
+  exact List.sublist_nil.1 this
+
+/-- **`ops_exact_difference`**: the violations of the schema are, up to order, the violations of its all-state variant plus the
+duplicate-value violations of its configuration leaf-lists (`cfgLeafListDups`, all of kind `Dup`) — nothing else appears or
+disappears: duplicates of leaves, containers, keyed list entries, `DupCase`, mandatory / min / max / unique / keys / values are the
+same lists on both sides. -/
+theorem ops_exact_difference (X : SchemaX) (o : VOpts) (hns : o.noState = false) (t : List DNode) :
+    (violations X o t).Perm (violations (stateVariant X) o t ++ cfgLeafListDups X o t) ∧
+      ∀ e ∈ cfgLeafListDups X o t, e = .dup := by
+  refine ⟨?_, ?_⟩
+  · rw [List.perm_iff_count]
+    intro e
+    unfold violations cfgLeafListDups
+    split
+    · rfl
+    · simp only [hns, Bool.false_and, Bool.false_eq_true, if_false, List.append_nil, List.count_append]
+      exact specL_count X o hns (fun _ => false) (fun _ h => by cases h) e X.top _
+  · unfold cfgLeafListDups
+    split
+    · intro e he; cases he
+    · exact llDupL_only_dup _ _ _
+
+/-- every kind other than `Dup` is violated by the schema iff by its variant; `Dup` iff by the variant or by a configuration leaf-list -/
+theorem ops_difference_mem (X : SchemaX) (o : VOpts) (hns : o.noState = false) (t : List DNode) (e : EKind) :
+    e ∈ violations X o t ↔ e ∈ violations (stateVariant X) o t ∨ (e = .dup ∧ cfgLeafListDups X o t ≠ []) := by
+  obtain ⟨hp, hd⟩ := ops_exact_difference X o hns t
+  rw [hp.mem_iff, List.mem_append]
+  constructor
+  · rintro (h | h)
+    · exact Or.inl h
+    · exact Or.inr ⟨hd e h, List.ne_nil_of_mem h⟩
+  · rintro (h | ⟨rfl, h⟩)
+    · exact Or.inl h
+    · right
+      obtain ⟨x, hx⟩ := List.exists_mem_of_ne_nil _ h
+      rw [← hd x hx]; exact hx
+
+/-- valid as datastore content = valid as operation content and no configuration leaf-list with a repeated value -/
+theorem valid_iff_ops_valid (X : SchemaX) (o : VOpts) (hns : o.noState = false) (t : List DNode) :
+    Valid X o t ↔ Valid (stateVariant X) o t ∧ cfgLeafListDups X o t = [] := by
+  obtain ⟨hp, _⟩ := ops_exact_difference X o hns t
+  unfold Valid
+  constructor
+  · intro h
+    rw [h] at hp
+    have := hp.symm.eq_nil
+    exact List.append_eq_nil_iff.1 this
+  · rintro ⟨h1, h2⟩
+    rw [h1, h2] at hp
+    exact hp.eq_nil
+
+/-- the example schema: `leaf-list ll; list l { key k; leaf k; leaf-list w; } choice ch { case a { leaf x; } case b { leaf y; } }
+leaf s { config false; }` — configuration leaf-lists at the top and inside a keyed list, a choice -/
+def Sops : Schema := { modName := "exo", nodes := [
+  { depth := 0, kind := .leaflist, name := "ll" },
+  { depth := 0, kind := .list, name := "l", nkeys := 1 },
+  { depth := 1, kind := .leaf, name := "k", iskey := true },
+  { depth := 1, kind := .leaflist, name := "w" },
+  { depth := 0, kind := .choice, name := "ch" },
+  { depth := 1, kind := .case, name := "a" },
+  { depth := 2, kind := .leaf, name := "x" },
+  { depth := 1, kind := .case, name := "b" },
+  { depth := 2, kind := .leaf, name := "y", mandatory := true },
+  { depth := 0, kind := .leaf, name := "s", config := false }] }
+def Xops : SchemaX := SchemaX.ofSchema Sops
+/-- `ll = a, a`; `l[k=1] { w = 1, 1 }` twice (same key); `x` and `y` (two cases) -/
+def tOps : List DNode := [.term 0 fl [] [97], .term 0 fl [] [97],
+  .inner 1 fl [] [.term 2 fl [] [49], .term 3 fl [] [49], .term 3 fl [] [49]], .inner 1 fl [] [.term 2 fl [] [49]],
+  .term 6 fl [] [120], .term 8 fl [] [121]]
+/-- only the leaf-list values repeat -/
+def tOps2 : List DNode := [.term 0 fl [] [97], .term 0 fl [] [97],
+  .inner 1 fl [] [.term 2 fl [] [49], .term 3 fl [] [49], .term 3 fl [] [49]], .term 6 fl [] [120]]
+
+/-- non-vacuity: on `tOps` the schema is violated four times — the two configuration leaf-lists, the list key, the choice; its all-state
+variant keeps exactly the key and the choice, `cfgLeafListDups` is the other two; `tOps2` is invalid datastore content and valid
+operation content -/
+example : violations Xops {} tOps = [.dup, .dup, .dup, .dupCase] ∧ violations (stateVariant Xops) {} tOps = [.dup, .dupCase] ∧
+    cfgLeafListDups Xops {} tOps = [.dup, .dup] ∧
+    violations Xops {} tOps2 = [.dup, .dup] ∧ Valid (stateVariant Xops) {} tOps2 ∧ cfgLeafListDups Xops {} tOps2 = [.dup, .dup] := by
+  refine ⟨by decide, by decide, by decide, by decide, by decide, by decide⟩
+
+/-! ### the variant as a schema -/
+
+/-- **`stateVariant_idem`**: taking the variant twice changes nothing more; the variant is all-state; an all-state schema is its own
+variant -/
+theorem stateVariant_idem (X : SchemaX) : stateVariant (stateVariant X) = stateVariant X :=
+  SchemaX.mapConfig_const_comp false _ X
+
+theorem stateVariant_allState (X : SchemaX) : (stateVariant X).allState = true := by
+  unfold SchemaX.allState stateVariant SchemaX.mapConfig
+  simp [allStateL_mapConfig, mapConfigS]
+
+theorem stateVariant_of_allState (X : SchemaX) (h : X.allState = true) : stateVariant X = X := by
+  unfold SchemaX.allState at h
+  simp only [Bool.and_eq_true, List.all_eq_true, Bool.not_eq_eq_eq_not, Bool.not_true] at h
+  unfold stateVariant SchemaX.mapConfig
+  rw [mapConfigL_allState X.top h.1]
+  have : mapConfigS (fun _ => false) X.base = X.base := by
+    unfold mapConfigS
+    have : X.base.nodes.map (setConfig fun _ => false) = X.base.nodes := by
+      rw [List.map_congr_left (g := id) (fun n hn => setConfig_fix _ n (h.2 n hn).symm)]
+      simp
+    rw [this]
+  rw [this]
+
+/-- non-vacuity: the example schema is not all-state, its variant is, and differs from it -/
+example : Xops.allState = false ∧ (stateVariant Xops).allState = true ∧
+    (stateVariant Xops).base.config 0 = false ∧ Xops.base.config 0 = true := by
+  refine ⟨by decide, by decide, by decide, by decide⟩
+
+/-- **`stateVariant_wellFormed`**: the variant of a well-formed schema is well-formed — the tree view is consistent with the flat table
+(`KidsLookupOk`, `InfoOk`), plain and sane where the schema is (`PlainSane`), with the same `unique` statements — and an instance is
+placed / shaped / buildable in the variant iff it is in the schema.  Hence every C02 theorem with these hypotheses applies to the
+variant (next theorem). -/
+theorem stateVariant_wellFormed (X : SchemaX) :
+    (KidsLookupOk X → KidsLookupOk (stateVariant X)) ∧ (InfoOk X → InfoOk (stateVariant X)) ∧
+    (PlainSane X → PlainSane (stateVariant X)) ∧ (stateVariant X).uniques = X.uniques ∧
+    (∀ t, placedL (stateVariant X) (stateVariant X).top t = placedL X X.top t) ∧
+    (∀ t, shapedL (stateVariant X) (stateVariant X).top t = shapedL X X.top t) ∧
+    (∀ t, buildL (stateVariant X).base t = buildL X.base t) ∧
+    sheightL (stateVariant X).top = sheightL X.top ∧ (∀ t, walkFuel (stateVariant X) t = walkFuel X t) :=
+  ⟨kidsLookupOk_mapConfig _ X, infoOk_mapConfig _ X, plainSane_mapConfig _ X, rfl, placedL_mapConfig _ X X.top,
+   shapedL_mapConfig _ X X.top, buildL_mapConfig _ X.base, sheightL_mapConfig _ X.top, walkFuel_mapConfig _ X⟩
+
+/-- **the model of `lyd_validate_op` for the source tree at hand is `validate` on the all-state variant**, on every route (rpc
+input, reply output, notification).  This is where the facts read from the C source enter (`LyModel.Generated.OpsFacts`, written by
+`tools/extractors/ops.py`): config flags cleared inside operations (`lys_compile_config`), a leaf-list without `LYS_CONFIG_W` may
+repeat (`lysc_is_dup_inst_list`), `_lyd_validate_op` runs `lyd_validate_new` on the output siblings of a reply.  When one of them
+stops holding in the source, this theorem stops checking (and `opsValidate` follows the source, so that the check still finds the
+documents on which libyang departs from the specification). -/
+theorem opsValidate_current (r : Route) (X : SchemaX) (t : List DNode) :
+    opsValidate OpFacts.current r X t = validate (stateVariant X) {} t := by
+  have hF : OpFacts.current = OpFacts.rfc := by decide
+  rw [hF]
+  cases r <;> rfl
+
+/-- the duplicate-instance macro of the source, evaluated by the extractor on every node kind and config flag combination, is the
+model's `Schema.isDupInst` — key-less list, or leaf-list that is not `config true` — with "no config flag" (operation content)
+behaving like `config false` -/
+theorem dupInst_source_table :
+    ∀ row ∈ Generated.dupInstTable, row.2.2 = (row.1 == "keylessList" || (row.1 == "leaflist" && row.2.1 != "w")) := by
+  decide
+
+/-- **`validate_iff_valid_ops`** (the C02 iff theorem on operation content), plain schemas = schemas without non-presence containers
+(`PlainSane`), any depth: for a well-formed schema `X` and an instance of its data definitions as the parsers leave it, on every
+route, the instance can be built and the model of `lyd_validate_op` logs no error **iff** the instance satisfies the specification
+of operation content (`opsViolations X t = []`, the RFC 7950 constraints of the all-state variant). -/
+theorem validate_iff_valid_ops (r : Route) (X : SchemaX) (hu : X.uniques = []) (hl : KidsLookupOk X) (hps : PlainSane X) (hio : InfoOk X)
+    (t : List DNode) (hp : placedL X X.top t = true) (hsh : shapedL X X.top t = true) (hh : sheightL X.top ≤ walkFuel X t)
+    (hfr : isFreshL t = true) (hlen : lenOkL t = true) (hlen0 : t.length ≤ uint32Max) :
+    (buildL X.base t = none ∧ (opsValidate OpFacts.current r X t).errs = []) ↔ opsViolations X t = [] := by
+  obtain ⟨w1, w2, w3, w4, w5, w6, w7, w8, w9⟩ := stateVariant_wellFormed X
+  rw [opsValidate_current, ← w7 t]
+  exact validate_ok_iff_valid (stateVariant X) {} rfl (by rw [w4]; exact hu) (w1 hl) (w3 hps) (w2 hio) t (by rw [w5]; exact hp)
+    (by rw [w6]; exact hsh) (by rw [w8, w9]; exact hh) hfr hlen hlen0
+
+/-- two equal values of the configuration leaf-list `ll` of the example schema `Sp` (inside the presence container `c`) -/
+def tDupLL : List DNode := [.inner 0 fl [] [.inner 1 fl [] [.term 2 fl [] [49], .term 3 fl [] [120]], .term 4 fl [] [49], .term 4 fl [] [49]]]
+
+/-- non-vacuity: the theorem instantiated at the schema `Sp` (a configuration leaf-list `ll` in a presence container) on the reply
+route: `tDupLL` is refused as datastore content (`Dup`) and accepted as operation content by model and specification alike; `tBad`
+(duplicate list key, missing mandatory leaf, too few `ll`) is refused as both -/
+example : ((buildL Xp.base tDupLL = none ∧ (opsValidate OpFacts.current .output Xp tDupLL).errs = []) ↔ opsViolations Xp tDupLL = []) ∧
+    opsViolations Xp tDupLL = [] ∧ violations Xp {} tDupLL = [.dup] ∧ ((validate Xp {} tDupLL).errs.map (·.kind)) = [.dup, .dup] ∧
+    (opsValidate OpFacts.current .output Xp tDupLL).errs = [] ∧
+    opsViolations Xp tBad = [.dup, .noMand, .noMin] ∧ (opsValidate OpFacts.current .input Xp tBad).errs ≠ [] :=
+  ⟨validate_iff_valid_ops .output Xp rfl (lookupOk_of_B _ (by decide)) (plainSane_of_B _ (by decide)) (infoOk_of_B _ (by decide)) tDupLL
+     (by decide) (by decide) (by decide) (by decide) (by decide) (by decide),
+   by decide, by decide, by decide, by decide, by decide, by decide⟩
+
+/-- **each fact is needed**: in a source tree where one of the three facts does not hold, the model of `lyd_validate_op` (which follows
+the source) departs from the specification of operation content on a concrete instance of the example schema — the check then
+reports such instances as violations with the document (`ops-iff`):
+without `lyd_validate_new` on the output siblings (F193) a reply with the leaf `x` twice is accepted;
+with leaf-lists of operations held to unique values, or with config flags honoured inside operations, the repeated `ll` / `w` values
+of `tOps2` are refused. -/
+theorem ops_facts_needed :
+    ((opsValidate { OpFacts.rfc with replyOutputNewValidated := false } .output Xops [.term 6 fl [] [120], .term 6 fl [] [120]]).errs = [] ∧
+      opsViolations Xops [.term 6 fl [] [120], .term 6 fl [] [120]] = [.dup] ∧
+      ((opsValidate OpFacts.rfc .output Xops [.term 6 fl [] [120], .term 6 fl [] [120]]).errs.map (·.kind)) = [.dup, .dup]) ∧
+    (((opsValidate { OpFacts.rfc with leafListDupAllowed := false } .input Xops tOps2).errs.map (·.kind)).contains .dup = true ∧
+      opsViolations Xops tOps2 = [] ∧ (opsValidate OpFacts.rfc .input Xops tOps2).errs = []) ∧
+    (((opsValidate { OpFacts.rfc with configIgnored := false } .notif Xops tOps2).errs.map (·.kind)).contains .dup = true) := by
+  refine ⟨⟨by decide, by decide, by decide⟩, ⟨by decide, by decide, by decide⟩, by decide⟩
+
+/-! ### `LYD_VALIDATE_NO_STATE` (excluded for operation content) -/
+
+/-- **`ops_noState`**: under `LYD_VALIDATE_NO_STATE` the specification on the all-state variant reports `UnexpState` as soon as the
+instance has any explicit top-level node of the schema (a data node of the top level, through choices and cases): no non-empty
+instance of an all-state schema is valid "configuration only" content.  This is why the option is not part of the operations
+family: `lyd_validate_op` has no option argument and validates with `val_opts = 0`. -/
+theorem ops_noState (X : SchemaX) (o : VOpts) (hns : o.noState = true) (t : List DNode) (n : DNode) (hn : n ∈ explicitPart t)
+    (hs : n.sid ∈ dataSidsL X.top) : EKind.unexpState ∈ violations (stateVariant X) o t := by
+  unfold violations
+  have hne : t ≠ [] := by
+    intro h; subst h; simp [explicitPart, explicitL] at hn
+  have : (o.present && t.isEmpty) = false := by
+    cases t with
+    | nil => exact absurd rfl hne
+    | cons _ _ => simp
+  simp only [this, Bool.false_eq_true, if_false, List.mem_append]
+  left
+  refine specL_noState _ o hns _ _ n.sid (allStateL_mapConfig X.top) ?_ ?_
+  · show n.sid ∈ dataSidsL (mapConfigL _ X.top)
+    rw [mapConfigL_dataSids]; exact hs
+  · exact List.any_eq_true.2 ⟨n, hn, by simp⟩
+
+/-- so: valid under `LYD_VALIDATE_NO_STATE` on the variant → no explicit node of the schema's top level -/
+theorem ops_noState_valid (X : SchemaX) (o : VOpts) (hns : o.noState = true) (t : List DNode) (h : Valid (stateVariant X) o t) :
+    ∀ n ∈ explicitPart t, n.sid ∉ dataSidsL X.top := by
+  intro n hn hs
+  have := ops_noState X o hns t n hn hs
+  unfold Valid at h
+  rw [h] at this
+  cases this
+
+/-- non-vacuity: the one-leaf instance `x` (inside a case of the choice) is valid operation content and `UnexpState` under no-state;
+on the schema itself (where `x` is configuration) it is valid under no-state -/
+example : Valid (stateVariant Xops) {} [.term 6 fl [] [120]] ∧ violations (stateVariant Xops) { noState := true } [.term 6 fl [] [120]] = [.unexpState] ∧
+    Valid Xops { noState := true } [.term 6 fl [] [120]] ∧ (6 : Nat) ∈ dataSidsL Xops.top := by
+  refine ⟨by decide, by decide, by decide, by decide⟩
 
 end LyModel.Props.C02
